@@ -361,6 +361,31 @@ func runC16Uci(r *hx.Rec) {
 	r.Assume("UCI lines: resource-exhaustion inputs are excluded by construction (Hash > 16 MB, perft > 3, depth > 6, movetime > 300 ms, 'quit'); after every sequence the harness sends 'stop' and 'isready'")
 	hx.Sub(r, "uci-lines", r.N(400, 3000), func(t *rapid.T) uciLinesCase { return genUciLines(t, 14) }, propC16Uci)
 	r.Excluded("UCI lines whose only effect is resource exhaustion (Hash > 16 MB, perft > 3, quit)", hogsExcluded)
+	// saved failing inputs (reported by independent sub-agents / found by the fuzz target), kept as regression cases
+	hx.Enum(r, "uci-regressions", false, func(yield func(uciLinesCase) bool) {
+		for _, c := range []uciLinesCase{
+			// hash switched on while a search that started without a table is running
+			{Lines: []string{"setoption name Use_Hash value false", "position startpos", "go infinite", "setoption name Use_Hash value true", "isready"}, DelaysMs: []int{0, 0, 30, 60, 0}},
+			{Lines: []string{"setoption name Use_Hash value false", "go depth 6", "setoption name Use_Hash value true", "setoption name Use_QSHash value true"}, DelaysMs: []int{0, 5, 40, 0}},
+			// a game of more than 512 plies
+			{Lines: []string{"position startpos moves " + strings.TrimSpace(strings.Repeat("g1f3 g8f6 f3g1 f6g8 ", 130)), "isready"}},
+			{Lines: []string{"position startpos moves " + strings.TrimSpace(strings.Repeat("g1f3 g8f6 f3g1 f6g8 ", 128)) + " g1f3", "go depth 2"}, DelaysMs: []int{0, 50}},
+			// numbers at the edge of the integer range
+			{Lines: []string{"position fen 4k3/8/8/8/8/8/8/4K3 w - - 0 4611686018427387904", "go depth 1"}},
+			{Lines: []string{"position fen 4k3/8/8/8/8/8/8/4K3 w - - 4611686018427387904 1", "go depth 1"}},
+			{Lines: []string{"perft 4611686018427387904", "isready"}, DelaysMs: []int{50, 0}},
+			{Lines: []string{"perft -1", "perft 0", "isready"}},
+			{Lines: []string{"go depth 4611686018427387904", "stop"}, DelaysMs: []int{20, 0}},
+			{Lines: []string{"go nodes 9223372036854775807 movetime 9223372036854775807", "stop"}, DelaysMs: []int{20, 0}},
+			{Lines: []string{"go wtime 9223372036854775807 btime 9223372036854775807 winc 9223372036854775807 binc 9223372036854775807 movestogo 9223372036854775807", "stop"}, DelaysMs: []int{20, 0}},
+			{Lines: []string{"position startpos moves e2e400", "position startpos moves xxe2e4"}},
+			{Lines: []string{"ponderhit", "isready"}},
+		} {
+			if !yield(c) {
+				return
+			}
+		}
+	}, propC16Uci)
 	// one over-long line (longer than the default 64 kB scanner buffer)
 	hx.Enum(r, "uci-long-line", false, func(yield func(uciLinesCase) bool) {
 		yield(uciLinesCase{Lines: []string{"position startpos moves e2e4", "position startpos moves " + strings.Repeat("e2e4 ", 14000), "isready"}})
